@@ -676,6 +676,7 @@ func emitFilter(fs *strings.Builder, p *pkg, c *consts, funcs map[string]string)
 		pv      string // local holding the pending callback
 		deleted string
 		act     string
+		mvs     map[string]bool // names that denote the member in this scope
 	}
 	clone := func(e env) env {
 		a := map[string]string{}
@@ -683,34 +684,47 @@ func emitFilter(fs *strings.Builder, p *pkg, c *consts, funcs map[string]string)
 			a[k] = x
 		}
 		e.atoms = a
+		m := map[string]bool{}
+		for k := range e.mvs {
+			m[k] = true
+		}
+		e.mvs = m
 		return e
 	}
 	e0 := env{atoms: map[string]string{
 		mv + ".isRequestOrNotification()": "isReq", mv + ".ID": "rawID", "s.allowP": "allowP",
 		mv + ".M": "m", mv + ".E": "e", mv + ".R": "r", `""`: "([] : List UInt8)",
-	}, deleted: "false"}
+	}, deleted: "false", mvs: map[string]bool{mv: true}}
 	finish := func(e env) string {
 		if e.act == "" {
 			return "FilterAct.drop"
 		}
 		return e.act
 	}
-	var walk func(list []ast.Stmt, e env, ind string) string
-	walk = func(list []ast.Stmt, e env, ind string) string {
+	type retFn func(x ast.Expr, e env, ind string) string
+	var walk func(list []ast.Stmt, e env, ind string, onReturn retFn) string
+	walk = func(list []ast.Stmt, e env, ind string, onReturn retFn) string {
 		if len(list) == 0 {
+			if onReturn != nil {
+				fail("%s: a helper ends without returning", who)
+			}
 			return finish(e)
 		}
 		st, rest := list[0], list[1:]
 		t := &tr{atoms: e.atoms, c: c, funcs: funcs, who: who}
 		switch v := st.(type) {
+		case *ast.ReturnStmt:
+			if onReturn != nil && len(v.Results) == 1 {
+				return onReturn(v.Results[0], e, ind)
+			}
 		case *ast.BranchStmt:
-			if v.Tok == token.CONTINUE {
+			if v.Tok == token.CONTINUE && onReturn == nil {
 				return finish(e)
 			}
 		case *ast.SwitchStmt:
 			if v.Tag == nil && v.Init == nil {
 				if conv := switchToIf(v); conv != nil {
-					return walk(append([]ast.Stmt{conv}, rest...), e, ind)
+					return walk(append([]ast.Stmt{conv}, rest...), e, ind, onReturn)
 				}
 			}
 		case *ast.ExprStmt:
@@ -720,20 +734,20 @@ func emitFilter(fs *strings.Builder, p *pkg, c *consts, funcs map[string]string)
 			}
 			switch {
 			case src(call.Fun) == "s.log":
-				return walk(rest, e, ind)
+				return walk(rest, e, ind, onReturn)
 			case src(call.Fun) == "delete" && len(call.Args) == 2 && src(call.Args[0]) == "s.call":
 				if e.key == "" || t.expr(call.Args[1]) != e.key {
 					fail("%s: deletes a callback entry other than the one it looked up", who)
 				}
 				ne := clone(e)
 				ne.deleted = "true"
-				return walk(rest, ne, ind)
+				return walk(rest, ne, ind, onReturn)
 			}
 		case *ast.SendStmt:
-			if e.pv != "" && src(v.Chan) == e.pv+".ch" && src(v.Value) == mv {
+			if e.pv != "" && src(v.Chan) == e.pv+".ch" && e.mvs[src(v.Value)] {
 				ne := clone(e)
 				ne.act = "FilterAct.deliver " + e.key + " " + e.deleted
-				return walk(rest, ne, ind)
+				return walk(rest, ne, ind, onReturn)
 			}
 		case *ast.AssignStmt:
 			if len(v.Lhs) == 1 && len(v.Rhs) == 1 {
@@ -741,20 +755,20 @@ func emitFilter(fs *strings.Builder, p *pkg, c *consts, funcs map[string]string)
 				if lhs == keepVar && rhs == "append("+keepVar+", "+mv+")" {
 					ne := clone(e)
 					ne.act = "FilterAct.keep"
-					return walk(rest, ne, ind)
+					return walk(rest, ne, ind, onReturn)
 				}
 				if ix, ok := v.Rhs[0].(*ast.IndexExpr); ok && src(ix.X) == "s.call" && v.Tok == token.DEFINE {
 					ne := clone(e)
 					ne.pv, ne.key = lhs, t.expr(ix.Index)
 					ne.atoms[lhs+" == nil"] = "(!(callHas " + ne.key + "))"
 					ne.atoms[lhs+" != nil"] = "(callHas " + ne.key + ")"
-					return walk(rest, ne, ind)
+					return walk(rest, ne, ind, onReturn)
 				}
 				if _, isIdent := v.Lhs[0].(*ast.Ident); isIdent && v.Tok == token.DEFINE {
 					ne := clone(e)
 					ne.atoms["s.call["+lhs+"] != nil"] = "(callHas " + lhs + ")"
 					ne.atoms["s.call["+lhs+"] == nil"] = "(!(callHas " + lhs + "))"
-					return "let " + lhs + " := " + t.expr(v.Rhs[0]) + "\n" + ind + walk(rest, ne, ind)
+					return "let " + lhs + " := " + t.expr(v.Rhs[0]) + "\n" + ind + walk(rest, ne, ind, onReturn)
 				}
 			}
 			if len(v.Lhs) == 2 && len(v.Rhs) == 1 && v.Tok == token.DEFINE { // rsp, ok := s.call[id]
@@ -764,10 +778,52 @@ func emitFilter(fs *strings.Builder, p *pkg, c *consts, funcs map[string]string)
 					ne.atoms[src(v.Lhs[1])] = "(callHas " + ne.key + ")"
 					ne.atoms[ne.pv+" != nil"] = "(callHas " + ne.key + ")"
 					ne.atoms[ne.pv+" == nil"] = "(!(callHas " + ne.key + "))"
-					return walk(rest, ne, ind)
+					return walk(rest, ne, ind, onReturn)
 				}
 			}
 		case *ast.IfStmt:
+			// `if s.helper(id, msg) {A} else {B}`: an unexported boolean method that looks the callback up
+			// (and may hand the member over) is inlined; `return true` continues with A, `return false` with B
+			if call, ok := v.Cond.(*ast.CallExpr); ok && v.Init == nil && onReturn == nil {
+				if sel, ok := call.Fun.(*ast.SelectorExpr); ok && src(sel.X) == "s" && !ast.IsExported(sel.Sel.Name) {
+					if hd, _ := findFunc(p, "Server", sel.Sel.Name); hd != nil && hd.Body != nil && hd.Type.Params.NumFields() == len(call.Args) {
+						he := clone(e)
+						k := 0
+						for _, f := range hd.Type.Params.List {
+							for _, nm := range f.Names {
+								if e.mvs[src(call.Args[k])] {
+									he.mvs[nm.Name] = true
+								} else if nm.Name != src(call.Args[k]) || e.atoms[nm.Name] != "" {
+									he.atoms[nm.Name] = t.expr(call.Args[k])
+								}
+								k++
+							}
+						}
+						thenList := append(append([]ast.Stmt{}, v.Body.List...), rest...)
+						var elseList []ast.Stmt
+						switch el := v.Else.(type) {
+						case nil:
+							elseList = rest
+						case *ast.BlockStmt:
+							elseList = append(append([]ast.Stmt{}, el.List...), rest...)
+						case *ast.IfStmt:
+							elseList = append([]ast.Stmt{el}, rest...)
+						}
+						return walk(hd.Body.List, he, ind, func(x ast.Expr, re env, ind string) string {
+							ne := clone(e)
+							ne.act, ne.key, ne.deleted = re.act, re.key, re.deleted
+							switch src(x) {
+							case "true":
+								return walk(thenList, ne, ind, nil)
+							case "false":
+								return walk(elseList, ne, ind, nil)
+							}
+							fail("%s: helper %s returns %q", who, sel.Sel.Name, src(x))
+							return ""
+						})
+					}
+				}
+			}
 			te := clone(e)
 			if v.Init != nil {
 				as, ok := v.Init.(*ast.AssignStmt)
@@ -786,22 +842,22 @@ func emitFilter(fs *strings.Builder, p *pkg, c *consts, funcs map[string]string)
 				}
 			}
 			cond := (&tr{atoms: te.atoms, c: c, funcs: funcs, who: who}).expr(v.Cond)
-			thenPart := walk(append(append([]ast.Stmt{}, v.Body.List...), rest...), te, ind+"  ")
+			thenPart := walk(append(append([]ast.Stmt{}, v.Body.List...), rest...), te, ind+"  ", onReturn)
 			var elsePart string
 			switch el := v.Else.(type) {
 			case nil:
-				elsePart = walk(rest, clone(e), ind+"  ")
+				elsePart = walk(rest, clone(e), ind+"  ", onReturn)
 			case *ast.BlockStmt:
-				elsePart = walk(append(append([]ast.Stmt{}, el.List...), rest...), clone(e), ind+"  ")
+				elsePart = walk(append(append([]ast.Stmt{}, el.List...), rest...), clone(e), ind+"  ", onReturn)
 			case *ast.IfStmt:
-				elsePart = walk(append([]ast.Stmt{el}, rest...), clone(e), ind+"  ")
+				elsePart = walk(append([]ast.Stmt{el}, rest...), clone(e), ind+"  ", onReturn)
 			}
 			return "if " + cond + " then\n" + ind + "  " + thenPart + "\n" + ind + "else\n" + ind + "  " + elsePart
 		}
 		fail("%s: unsupported statement %q", who, src(st))
 		return ""
 	}
-	body := walk(loopBody, e0, "  ")
+	body := walk(loopBody, e0, "  ", nil)
 	fmt.Fprintf(fs, "/-- %s: the body of the loop of `Server.filterBatchLocked` as a whole: what the reader does with one member. `callHas k` = a callback is pending under key `k`; `deliver k deleted` = the member is handed to that callback after its entry was (`deleted`) removed -/\n"+
 		"def filterAct (isReq : Bool) (rawID m : List UInt8) (e : Option Unit) (r : List UInt8) (allowP : Bool) (callHas : List UInt8 → Bool) : FilterAct :=\n  %s\n\n", file, body)
 }
